@@ -274,7 +274,7 @@ class TypedNode(Node):
             if isinstance(before, (int, TypedNode)) or before is True:
                 topnodes.reverse()
             for n in topnodes:
-                self.add_child(n, before=before, deep=deep)
+                self.add_child(n, kind=n.kind, before=before, deep=deep)
             return
 
         if isinstance(before, Node) and before._parent is not self:
